@@ -156,8 +156,8 @@ def shape_ok(kind, sh):
     if kind == 6:
         return sh[2] == 1 and sh[3] == 1
     if kind in (7, 8, 9):
-        k, nt, n, nc, nd, wf = sh
-        return k <= nt and n == nt - k and nd == 1 and (nc == -1 or nc == n) and wf == 1
+        k, nt, n, nc, nd, wf = sh      # what PPSpline::new establishes (it does not look at the count of coefficients)
+        return nt > 1 and k <= nt and n == nt - k and nd == 1 and wf == 1
     return True
 
 
@@ -246,44 +246,6 @@ def raw_cases(ctx, docs_text):
     return out
 
 
-def _illshaped_number(n):
-    try:
-        (tag, body), = n.kv
-        if tag == "F64":
-            return False
-        if isinstance(body, list):
-            return True                      # positional form: not analysed here, treated as possibly ill-shaped
-        nv = len(dict.fromkeys(body.get("vars")))
-        du = body.get("dual")
-        nd = len(du.get("data")) if isinstance(du, J.Obj) else None
-        if nd is None or nd != nv:
-            return True
-        if tag == "Dual2":
-            d2 = body.get("dual2")
-            if not isinstance(d2, J.Obj) or list(d2.get("dim")) != [nv, nv]:
-                return True
-        return False
-    except Exception:
-        return True
-
-
-def fx_has_illshaped_quote(doc):
-    """an FXRates document one of whose quotes holds a Dual/Dual2 with inconsistent array lengths (F5 inside F4):
-    the reconstruction then does dual arithmetic on arrays of different lengths — outside the modelled domain"""
-    try:
-        if top_type(doc) != "FXRates":
-            return False
-        body = doc.kv[0][1]
-        rates = body.get("fx_rates") if isinstance(body, J.Obj) else body[0]
-        for q in rates:
-            n = q.get("rate") if isinstance(q, J.Obj) else q[1]
-            if _illshaped_number(n):
-                return True
-        return False
-    except Exception:
-        return False
-
-
 def classify_panic(doc):
     ty = top_type(doc)
     if ty == "FXRates":
@@ -321,18 +283,7 @@ def run_load(ctx, cases):
             ctx.nontriv(("load", tuple(e)))
         base = {"part": "load", "entry": "from_json", "type": ty, "mutation": lab, "document": J.show(doc, 2000),
                 "tree": e, "implementation": a[:40], "model": b[:40], "harness_cmd": harness_cmd("json", ln)[:6000]}
-        if not agree and fx_has_illshaped_quote(doc):
-            ctx.count("load: FXRates document with an ill-shaped quote (outside the modelled domain)")
-            if a[0] != 2:
-                continue
-            key = ("from_json", "FXRates", "panic-on-inconsistent-fx")
-            what = ("from_json ABORTS (ndarray shape mismatch inside the FXRates reconstruction) on a document whose quote holds a "
-                    "Dual with inconsistent array lengths: %s" % J.show(doc, 400))
-        elif not agree:
-            key = ("from_json", ty, "model-mismatch")
-            what = ("from_json: the implementation and the model disagree on the document %s (%s): implementation %s, model %s"
-                    % (J.show(doc, 300), lab, fmt_load(a), fmt_load(b)))
-        elif a[0] == 2:
+        if a[0] == 2:
             ty2, cls = classify_panic(doc)
             key = ("from_json", ty2, cls)
             what = ("from_json ABORTS (Rust panic, a PanicException in Python) instead of returning an error on the document %s"
@@ -341,6 +292,10 @@ def run_load(ctx, cases):
             key = ("from_json", J.KINDS[a[1]], "shape-invariant")
             what = ("from_json returns Ok(%s) with stored shapes %s that violate the type's invariant, for the document %s"
                     % (J.KINDS[a[1]], a[3:3 + a[2]], J.show(doc, 400)))
+        elif not agree:
+            key = ("from_json", ty, "model-mismatch")
+            what = ("from_json: the implementation and the model disagree on the document %s (%s): implementation %s, model %s"
+                    % (J.show(doc, 300), lab, fmt_load(a), fmt_load(b)))
         else:
             continue
         rp = dict(base)
